@@ -18,7 +18,7 @@ func init() {
 		Assumptions: []string{"field kinds are representatives of wire classes, not every leaf"},
 		Work:        c03Work,
 		Post: func(a *mc.Agg) []string {
-			return needDims(a, "removed:1", "removed:2", "reordered", "added", "nest:top", "nest:field", "nest:elem", "nest:mapval", "nest:ptr", "highest-index-first", "time-payload")
+			return needDims(a, "removed:1", "removed:2", "reordered", "added", "nest:top", "nest:field", "nest:elem", "nest:mapval", "nest:ptr", "highest-index-first", "time-payload", "size-sweep")
 		},
 	})
 }
@@ -63,6 +63,7 @@ func c03Work(c *mc.Ctx) {
 	if c.Owns(0) {
 		c03TimePayload(c, kinds)
 	}
+	c03SizeSweep(c)
 	var tuple []int
 	var rec func()
 	rec = func() {
@@ -448,4 +449,135 @@ func c03Pair(c *mc.Ctx, p interface {
 			c.Sample(map[string]string{"S": S.String(), "S'": S2.String(), "value": ref.Str(S, v), "nest": nest, "data": hx(data)})
 		}
 	})
+}
+
+// The size dimension of skipping: one removed field at a time carries a payload of l bytes, for l
+// around every power of two from 2^7 to 2^21 (thorough 2^24) and the bit patterns 11.. and 101..
+// between them (so that every bit of a multi-byte length varint is seen both set and clear).
+type c03Big struct {
+	A   string            `plenc:"1"`
+	L   []string          `plenc:"2"`
+	P   []uint8           `plenc:"3"`
+	N   c03BigIn          `plenc:"4"`
+	M   map[string]string `plenc:"5"`
+	By  []byte            `plenc:"6"`
+	SS  []c03BigIn        `plenc:"7"`
+	LP  []string          `plenc:"8,proto"`
+	B   int               `plenc:"10"`
+	End string            `plenc:"60"`
+}
+type c03BigIn struct {
+	X string `plenc:"1"`
+	Y int    `plenc:"2"`
+}
+type c03Small struct {
+	B   int    `plenc:"10"`
+	End string `plenc:"60"`
+}
+type c03BigOuter struct {
+	In    c03Big   `plenc:"1"`
+	Elems []c03Big `plenc:"2"`
+	After int      `plenc:"3"`
+}
+type c03SmallOuter struct {
+	In    c03Small   `plenc:"1"`
+	Elems []c03Small `plenc:"2"`
+	After int        `plenc:"3"`
+}
+
+func c03SizeSweep(c *mc.Ctx) {
+	maxK := 21
+	if c.Tier == "thorough" {
+		maxK = 24
+	}
+	var lens []int
+	for k := 7; k <= maxK; k++ {
+		lens = append(lens, 1<<k-1, 1<<k, 1<<k+1, 3<<(k-1), 5<<(k-2))
+	}
+	fields := []string{"A", "L", "P", "N", "M", "By", "SS", "LP"}
+	longEnd := strings.Repeat("E", 40000)
+	for li, l := range lens {
+		if !c.Owns(li) || c.Expired() {
+			continue
+		}
+		if !c.Begin(fmt.Sprintf(`{"set":"size-sweep","removed_payload_bytes":%d}`, l)) {
+			continue
+		}
+		c.AddEvals(-1)
+		c.Dim("size-sweep")
+		pay := strings.Repeat("p", l)
+		for _, f := range fields {
+			for _, end := range []string{"END", longEnd} {
+				c.AddEvals(1)
+				c.Count("states", 1)
+				c.AddNonTrivial(1)
+				sig := fmt.Sprintf("size-sweep|%s|", f)
+				c.Guard(sig, func() {
+					big := c03Big{B: 10, End: end}
+					switch f {
+					case "A":
+						big.A = pay
+					case "L":
+						big.L = []string{"x", pay, "", "y"}
+					case "P":
+						big.P = []uint8(pay)
+					case "N":
+						big.N = c03BigIn{X: pay, Y: 3}
+					case "M":
+						big.M = map[string]string{"k": pay}
+					case "By":
+						big.By = []byte(pay)
+					case "SS":
+						big.SS = []c03BigIn{{Y: 1}, {X: pay, Y: 2}, {}}
+					case "LP":
+						big.LP = []string{"x", pay, "y"}
+					}
+					p := NewPlenc(ref.Cfg{})
+					check := func(where string, data []byte, got c03Small, err error) bool {
+						if err != nil {
+							c.Violation(sig+"decode-error:"+where, fmt.Sprintf("removed field %s with a payload of %d bytes, %d bytes follow it: %v", f, l, len(end), err))
+							return false
+						}
+						if got.B != 10 || got.End != end {
+							c.Violation(sig+"fields-after-the-skipped-one-differ:"+where, fmt.Sprintf("removed field %s with a payload of %d bytes: B=%d (want 10), End has %d bytes (want %d)", f, l, got.B, len(got.End), len(end)))
+							return false
+						}
+						return true
+					}
+					data, err := p.Marshal(nil, &big)
+					if err != nil {
+						c.Violation(sig+"marshal-error", err.Error())
+						return
+					}
+					got := c03Small{B: -1, End: "stale"}
+					err = p.Unmarshal(data, &got)
+					c.Ops(2)
+					if !check("top", data, got, err) {
+						return
+					}
+					// nested: as a struct field and as slice elements, with a field after them
+					outer := c03BigOuter{In: big, Elems: []c03Big{{B: 10, End: end}, big}, After: 77}
+					data, err = p.Marshal(nil, &outer)
+					if err != nil {
+						c.Violation(sig+"marshal-error", err.Error())
+						return
+					}
+					var so c03SmallOuter
+					err = p.Unmarshal(data, &so)
+					c.Ops(2)
+					if !check("field", data, so.In, err) {
+						return
+					}
+					if len(so.Elems) != 2 || so.After != 77 {
+						c.Violation(sig+"fields-after-the-skipped-one-differ:elem", fmt.Sprintf("removed field %s with a payload of %d bytes: %d elements (want 2), After=%d (want 77)", f, l, len(so.Elems), so.After))
+						return
+					}
+					if !check("elem", data, so.Elems[0], nil) || !check("elem", data, so.Elems[1], nil) {
+						return
+					}
+					c.Outcome("ok")
+				})
+			}
+		}
+	}
 }
